@@ -209,7 +209,20 @@ class Lists(Part):
                 before = list(pop)
                 ev = {"ev": "remove", "lst": list(popabs), "p": a, "res": [], "found": False, "exc": ""}
 
+                via_archive = rng.random() < 0.4 and len(pop) > 0
+
                 def body():
+                    if via_archive:
+                        # the same removal through the public Archive.remove (members are made mutually non-dominated so that all are kept)
+                        from artap.archive import Archive
+                        from artap.operators import ParetoDominance
+                        arch = Archive(ParetoDominance())
+                        for k, m in enumerate(pop):
+                            m.costs_signed = [float(k), float(-k), False]
+                            arch.add(m)
+                        found = arch.remove(probe)
+                        pop[:] = list(arch)
+                        return bool(found)
                     try:
                         pop.remove(probe)
                         return True
